@@ -58,7 +58,8 @@ func timeoutTables(c *core.Ctx) {
 				name = kv.Key.(*ast.Ident).Name
 			}
 			val, isC := astx.ConstInt(info, v)
-			if (name == "size") || (name == "" && j == 0) {
+			_, _ = name, j
+			if t := info.TypeOf(v); t != nil && astx.TypeIs(t, "time", "Duration") {
 				size, okS = val, isC
 			} else {
 				ch, okC = val, isC
@@ -94,18 +95,24 @@ func timeoutTables(c *core.Ctx) {
 				}
 				writes++
 				inInit := fd.Name.Name == "init" && fd.Recv == nil
-				var rng *ast.RangeStmt
-				for _, lp := range loopsIn(fd.Body) {
-					if r, ok := lp.(*ast.RangeStmt); ok && astx.Contains(r, as) && astx.ObjOf(info, r.X) == units {
-						rng = r
-					}
-				}
+				// the loop over the encoder's table (range or index form) and its element
 				okKV := false
-				if rng != nil && rng.Value != nil && i < len(as.Rhs) {
-					elem := astx.ObjOf(info, rng.Value)
+				for _, lp := range loopsIn(fd.Body) {
+					if !astx.Contains(lp, as) || i >= len(as.Rhs) {
+						continue
+					}
+					li := loopOverEx(info, lp, fd.Body)
+					if li.dir == dirUnknown || astx.ObjOf(info, li.slice) != units {
+						continue
+					}
 					k, kok := astx.Unparen(ie.Index).(*ast.SelectorExpr)
 					v, vok := astx.Unparen(as.Rhs[i]).(*ast.SelectorExpr)
-					okKV = kok && vok && astx.ObjOf(info, k.X) == elem && astx.ObjOf(info, v.X) == elem && k.Sel.Name == "char" && v.Sel.Name == "size"
+					if !kok || !vok || li.elemDir(k.X) == dirUnknown || li.elemDir(v.X) == dirUnknown {
+						continue
+					}
+					// key = the unit byte, value = the duration (by type: the element has one field of each)
+					kt, vt := info.TypeOf(k), info.TypeOf(v)
+					okKV = kt != nil && vt != nil && types.Identical(kt.Underlying(), types.Typ[types.Uint8]) && astx.TypeIs(vt, "time", "Duration")
 				}
 				if inInit && okKV {
 					good++
